@@ -151,6 +151,17 @@ def run(tier: str) -> int:
     return res.finish()
 
 
+GETTERS = {'C18_bht_depth': lambda r: r['trock'], 'C18_bht_gradient': lambda r: r['trock'], 'C18_tdp_drawdown': lambda r: r['tres'],
+           'C18_tprod0_flow': lambda r: r['tprod0'], 'C18_wellcost_depth': lambda r: r['out']['wellcost'],
+           'C18_npv_cost': lambda r: r['out']['npv'], 'C18_lc_cost': lambda r: [r['out']['lcoe'], r['out']['lcoh'], r['out']['lcoc']]}
+
+
 def replay(path: str) -> int:
-    print(open(path).read()[:3000])
-    return 0
+    import json
+    rp = json.loads(open(path).read())['replay']
+    if 'vector' in rp:
+        res = Result('C18', 'quick')
+        replay_wellcost(res, [rp['vector']])
+        return res.finish()
+    from .rel import replay_ladder
+    return replay_ladder('C18', path, GETTERS)
